@@ -118,7 +118,7 @@ class ReaderVsRepacker(sysched.Scenario):
         self.reader_op = reader_op
         self.repack_op = repack_op
         self.warm = warm
-        self.name = "reader[%s,%s] || %s on %s" % (reader_op, "warm" if warm else "cold", repack_op, layout)
+        self.name = "reader[%s,%s] || %s on %s" % (reader_op, warm if isinstance(warm, str) else "warm" if warm else "cold", repack_op, layout)
 
     def setup(self, root):
         from dulwich.repo import Repo
@@ -133,10 +133,12 @@ class ReaderVsRepacker(sysched.Scenario):
             r.object_store.add_objects([(o, None) for o in g["G1"]])
             for o in g["G2"] + g["G3"] + g["G4"]:
                 r.object_store.add_object(o)
-        elif self.layout == "two-packs":
+        elif self.layout in ("two-packs", "two-packs+midx"):
             r.object_store.add_objects([(o, None) for o in g["G1"]])
             r.object_store.add_objects([(o, None) for o in g["G2"] + g["G3"]])
             r.object_store.add_object(g["G4"][0])
+            if self.layout.endswith("+midx"):
+                r.object_store.write_midx()
         r.refs[M] = u["c2"].id
         r.refs[TAGREF] = u["tag"].id
         r.refs.set_symbolic_ref(b"HEAD", M)
@@ -154,7 +156,11 @@ class ReaderVsRepacker(sysched.Scenario):
         try:
             st = r.object_store
             if i == 0:
-                if self.warm:
+                if self.warm == "listed":
+                    # knows which packs exist and has loaded the multi-pack-index, but has not opened any pack yet
+                    list(st.packs)
+                    st.get_midx()
+                elif self.warm:
                     list(st.packs)
                     u["c1"].id in st
                 if self.reader_op == "iter":
@@ -683,6 +689,11 @@ def run(ctx):
                     if q and reader_op == "get_raw" and layout != "loose":
                         continue
                     races.append((layout, reader_op, repack_op, warm, 1 if q else 2))
+    # a multi-pack-index over two packs; the reader may know the packs and the index without having opened a pack
+    for reader_op in ("getitem", "contains", "get_raw") + (() if q else ("iter",)):
+        for repack_op in ("repack", "gc") + (() if q else ("pack_loose_objects",)):
+            for warm in (False, "listed") + (() if q else (True,)):
+                races.append(("two-packs+midx", reader_op, repack_op, warm, 1 if q else 2))
     pmap_acc(work_race, ctx.order(races), ctx.acc, jobs=ctx.jobs)
     # (A) sequential maintenance
     paths = layouts_parallel(ctx, 3 if q else 4)
